@@ -256,6 +256,16 @@ class TopoRunner:
         self.idseq += 1
         return "sid-%d" % self.idseq
 
+    @staticmethod
+    def _bad_kwargs(o, type_key="capacities"):
+        """an invalid property carried by an otherwise fine creating call"""
+        b = o.get("bad", "none")
+        if b == "unknown":
+            return {"bogus_property": 1}
+        if b == "type":
+            return {type_key: "10G"}                               # a string where an object is required
+        return {}
+
     def _dispatch(self, o):
         op, t = o["op"], self.t
         none = {"k": "none"}
@@ -263,7 +273,7 @@ class TopoRunner:
         if op == "AddNode":
             nid = ("fixed-" + o["cid"]) if o.get("cid") else (self._sid() if sub else None)
             t.add_node(name=conc_name(o["name"]), site=o["site"], ntype=NodeType[o["ntype"]],
-                       node_id=nid, **self._rp_kwargs(o.get("rp")))
+                       node_id=nid, **self._rp_kwargs(o.get("rp")), **self._bad_kwargs(o))
             return none
         if op == "RemoveNode":
             t.remove_node(name=o["name"])
@@ -278,7 +288,7 @@ class TopoRunner:
                 kw = dict(node_id=self._sid(), network_service_node_id=self._sid(),
                           interface_node_ids=[self._sid() for _ in range(nports)],
                           interface_labels=[Labels(mac="00:00:00:00:00:%02x" % (i + 1)) for i in range(nports)])
-            n.add_component(name=conc_name(o["name"]), ctype=ComponentType[ct], model=model, **kw)
+            n.add_component(name=conc_name(o["name"]), ctype=ComponentType[ct], model=model, **kw, **self._bad_kwargs(o))
             return none
         if op == "AddStorage":
             self.need(o["n"])
@@ -293,6 +303,7 @@ class TopoRunner:
             kw = self._rp_kwargs(o.get("rp"))
             if o.get("site"):
                 kw["site"] = o["site"]
+            kw.update(self._bad_kwargs(o, "labels"))
             s = t.add_network_service(name=conc_name(o["name"]), nstype=ServiceType[o["nstype"]], interfaces=ifs,
                                       node_id=self._sid() if sub else None, **kw)
             self.handles = {s.node_id: s}      # the handle the call returned
@@ -353,13 +364,14 @@ class TopoRunner:
             return none
         if op == "AddFacility":
             t.add_facility(name=conc_name(o["name"]), site=o["site"], node_id=self._sid() if sub else None,
-                           **self._rp_kwargs(o.get("rp")))
+                           **self._rp_kwargs(o.get("rp")), **self._bad_kwargs(o, "labels"))
             return none
         if op == "RemoveFacility":
             t.remove_facility(name=o["name"])
             return none
         if op == "AddSwitch":
-            t.add_switch(name=conc_name(o["name"]), site=o["site"], nports=o["nports"], node_id=self._sid() if sub else None)
+            t.add_switch(name=conc_name(o["name"]), site=o["site"], nports=o["nports"], node_id=self._sid() if sub else None,
+                         **({"portlabels": "p-lab"} if o.get("bad") == "type" else {}))
             return none
         if op == "RemoveSwitch":
             t.remove_switch(name=o["name"])
